@@ -278,6 +278,9 @@ func genRealScript(r *rand.Rand, prop string) realScript {
 			switch r.Intn(12) {
 			case 0, 1, 2, 3, 4:
 				ops = append(ops, editOp{Side: side, Op: "write", Path: p, Arg: content()})
+				if r.Intn(4) == 0 {
+					ops = append(ops, editOp{Side: side, Op: "chmod", Path: p, Arg: "x"})
+				}
 			case 5:
 				ops = append(ops, editOp{Side: side, Op: "rm", Path: p})
 			case 6:
